@@ -681,7 +681,22 @@ def gen_coal(rng, kind, treekind, theta_tp=False, n=None, special=None, grid_lea
         spec["coords"]["nh"] = [i for i in range(n) if x["nh"][i] > 0 and allv.count(x["nh"][i]) == 1] + spec["coords"]["nh"]
     spec["x"], spec["bounds"] = x, b
     spec["name"] = "coal/%s/%s%s%s" % (kind, treekind, "/theta=exp(.)" if theta_tp else "", "/grid-leaf" if "grid" in x else "")
-    if special == "equal_theta+beyond_root" and k > 1:
+    if special in ("equal_theta_free", "neighbours_equal_free", "near_equal_free", "near_equal_out_free") and k > 1:
+        # points where the code switches FORMULA (series / where branch for equal neighbouring sizes): the value is
+        # smooth there, the thetas stay DIFFERENTIATED
+        nm = "logtheta" if theta_tp else "theta"
+        v = list(x[nm])
+        if special == "equal_theta_free":
+            v = [v[0]] * len(v)
+        else:
+            j0 = rng.randrange(len(v) - 1)
+            d_ = {"neighbours_equal_free": 0.0, "near_equal_free": 3.0e-7, "near_equal_out_free": 1.0e-5}[special]
+            v[j0 + 1] = v[j0] * (1.0 + d_) if not theta_tp else v[j0] + d_
+            if len(v) > 3 and special == "neighbours_equal_free" and rng.random() < 0.5:
+                v[-1] = v[-2]
+        x[nm] = v
+        spec["name"] += "/" + special.replace("_free", "") + "(thetas differentiated)"
+    elif special == "equal_theta+beyond_root" and k > 1:
         nm = "logtheta" if theta_tp else "theta"
         x[nm] = [x[nm][0]] * len(x[nm])
         hold_fixed(spec, nm)
@@ -1738,6 +1753,14 @@ def catalogue(rng, tier):
         sp.append(lambda k=kind: gen_coal(rng, k, rng.choice(["fake", "time", "ratio"]), rng.random() < 0.5,
                                           special="beyond_root"))
     sp.append(lambda: gen_coal(rng, "exponential", rng.choice(["time", "ratio"]), False, special="growth0"))
+    # formula-switch points with the thetas DIFFERENTIATED (equal / nearly equal neighbouring population sizes)
+    sw = [(k_, s_) for k_ in ("pwlinear", "skygrid", "skyride", "skygrid_soft")
+          for s_ in ("equal_theta_free", "neighbours_equal_free", "near_equal_free", "near_equal_out_free")]
+    if not thorough:
+        sw = [c_ for c_ in sw if c_[0] == "pwlinear"] + rng.sample([c_ for c_ in sw if c_[0] != "pwlinear"], 3)
+    for k_, s_ in sw:
+        for tk_ in (("fake", "time", "ratio") if thorough else (rng.choice(["fake", "time", "ratio"]),)):
+            add(lambda k_=k_, s_=s_, tk_=tk_: gen_coal(rng, k_, tk_, rng.random() < 0.3, special=s_))
     # BDSK, multi-epoch, tips of every class; every per-epoch boundary value one at a time and in pairs
     ep = []
     for m in (2, 3):
